@@ -71,6 +71,10 @@ ALIAS_FNS = {'uref_to_uchain': 0, 'uref_from_uchain': 0, 'ubuf_to_uchain': 0,
 # failures (DESIGN §3.1)
 INPUT_DEP_RE = re.compile(r'^(uref_\w+_get_\w+|uref_flow_match_def|uref_\w*match\w*|uref_(block|pic|sound)_size|uref_\w+_cmp\w*)$')
 
+CONV_NONNULL_RE = re.compile(r'^\w+_(to|from)_\w+$')
+LOUD_RE = re.compile(r'^(upipe_(throw\w*|warn(_va)?|err(_va)?|notice(_va)?)|uprobe_throw\w*)$')
+FORWARD_RE = re.compile(r'(^upipe_input$|_output$|_output_\w+$)')
+
 MAX_STATES = 20000
 
 
@@ -92,7 +96,7 @@ class Violation:
 
 
 class Env:
-    __slots__ = ('vars', 'objs', 'facts', 'af', 'esc', 'err')
+    __slots__ = ('vars', 'objs', 'facts', 'af', 'esc', 'err', 'how', 'loud', 'nout')
 
     def __init__(self):
         self.vars = {}     # var name -> object id
@@ -101,6 +105,9 @@ class Env:
         self.af = False    # allocation-failure path
         self.esc = frozenset()
         self.err = frozenset()
+        self.how = {}      # object id -> name of the call that consumed / kept it
+        self.loud = False  # a warning / error / throw happened on this path
+        self.nout = 0      # number of forwarding calls on this path (capped at 2)
 
     def copy(self):
         e = Env()
@@ -110,12 +117,15 @@ class Env:
         e.af = self.af
         e.esc = self.esc
         e.err = self.err
+        e.how = dict(self.how)
+        e.loud = self.loud
+        e.nout = self.nout
         return e
 
     def freeze(self):
         return (tuple(sorted(self.vars.items())), tuple(sorted(self.objs.items())),
                 tuple(sorted((str(k), str(v)) for k, v in self.facts.items())),
-                self.af, self.esc, self.err)
+                self.af, self.esc, self.err, tuple(sorted(self.how.items())), self.loud, self.nout)
 
 
 # calls that only read their arguments and return the same answer while
@@ -293,6 +303,8 @@ class _Explorer:
         self.undecided = []
         self.forked_calls = set()
         self.esc_leaks = set()
+        self.null_deliveries = set()
+        self.exit_how = []
         self.ptrvars = set()
         for p in fn.params:
             if p['t'] in TRACKED_TYPES:
@@ -422,7 +434,8 @@ class _Explorer:
         return {'decided': not self.undecided, 'undecided': self.undecided,
                 'violations': list(self.viol.values()), 'exits': self.exits,
                 'returns': self.returns, 'states': nstates, 'null_is_af': self.null_is_af,
-                'forked_calls': self.forked_calls, 'esc_leaks': self.esc_leaks}
+                'forked_calls': self.forked_calls, 'esc_leaks': self.esc_leaks,
+                'null_deliveries': self.null_deliveries, 'exit_how': self.exit_how}
 
     def prune(self, env, tgt):
         live = self.livekeys.get(tgt, set())
@@ -506,6 +519,10 @@ class _Explorer:
             f = env.facts.get(('call', n.get('i')))
             if f is not None:
                 return f
+            if n.get('fn') and CONV_NONNULL_RE.match(n['fn']) and len(n.get('args', [])) == 1:
+                g = self.own.prog.lookup(self.unit, n['fn'])
+                if g is not None and g.macro in ('UBASE_FROM_TO', 'UPIPE_HELPER_UPIPE'):
+                    return True     # &s->member / container_of: never NULL
             if n.get('fn') == 'ubase_check':
                 a = strip_all_casts(self.fn.resolve(n['args'][0]))
                 if isinstance(a, dict):
@@ -787,6 +804,8 @@ class _Explorer:
         if isinstance(r, dict) and r.get('k') == 'call':
             if r.get('fn'):
                 env.facts[('src', name)] = r['fn']
+            if self._truth(r, env) is True:
+                env.facts[('var', name)] = True
             f = env.facts.get(('call', r.get('i')))
             if f is not None:
                 env.facts[('var', name)] = f
@@ -815,8 +834,16 @@ class _Explorer:
             return None
         if name == '__builtin_expect':
             return self.eval(args[0], env)
+        if LOUD_RE.match(name):
+            env.loud = True
         objs = [self.argval(a, env) for a in args]
         for i, oid in enumerate(objs):
+            if oid == 'NULL' and self.is_reflike(args[i]) and not env.af:
+                a0 = strip_all_casts(args[i])
+                if isinstance(a0, dict) and a0.get('k') == 'ref':
+                    act0 = self.own.action(self.unit, name, i)
+                    if FORWARD_RE.search(name) and isinstance(act0, frozenset) and all(a == C for a, _ in act0):
+                        self.null_deliveries.add((name, a0['n'], n.get('l'), tuple(self.cur_trail[-12:])))
             if oid is None or oid == 'NULL' or oid not in env.objs:
                 continue
             act = self.own.action(self.unit, name, i)
@@ -887,6 +914,7 @@ class _Explorer:
         if act == 'consume_if_result':
             if self.cur_choice.get(n['i'], True):
                 env.objs[oid] = C
+                env.how[oid] = name
             return
         if not isinstance(act, frozenset):
             return
@@ -907,8 +935,12 @@ class _Explorer:
             env.facts[('call', n['i'])] = True
         if a == C:
             env.objs[oid] = C
+            env.how[oid] = name
+            if FORWARD_RE.search(name):
+                env.nout = min(2, env.nout + 1)
         elif a == K and atom == O:
             env.objs[oid] = K
+            env.how[oid] = name
 
     def at_exit(self, env, retexpr, trail, val, line=None):
         fn = self.fn
@@ -946,6 +978,7 @@ class _Explorer:
                     self.null_is_af = False
         for i in self.owned_params:
             self.exits.append((env.objs.get('P%d' % i), rk, env.af, line, env.err))
+            self.exit_how.append((env.objs.get('P%d' % i), env.how.get('P%d' % i), env.af, line, env.err, tuple(trail[-16:]), env.loud, env.nout))
         for oid, atom in env.objs.items():
             if atom == O:
                 if oid in env.esc:
